@@ -10,7 +10,7 @@ D=${COV_DIR:-/tmp/flatsim-cov}
 T=$(dirname $(rustc +nightly --print target-libdir))/bin
 VERIF=$(cd $(dirname $0)/.. && pwd)
 rm -rf $D; mkdir -p $D/prof $D/out
-(cd $VERIF/flatsim && CARGO_NET_OFFLINE=true RUSTFLAGS="-C instrument-coverage" cargo +nightly build --offline --profile checked --target-dir $D/td 2>&1 | tail -1)
+(cd $VERIF/flatsim && LLVM_PROFILE_FILE=$D/build-%p.profraw CARGO_NET_OFFLINE=true RUSTFLAGS="-C instrument-coverage" cargo +nightly build --offline --profile checked --target-dir $D/td 2>&1 | tail -1)
 python3 - "$VERIF" "$D" "$DIV" <<'PY'
 import subprocess, os, re, sys
 verif, d, div = sys.argv[1], sys.argv[2], int(sys.argv[3])
